@@ -75,6 +75,7 @@ class Profile:
     causal_sync: bool = False                   # shrink kernels so that every synchronising call returns after the work it waits for
     p_sync_touch: float = 0.0                   # a sync record ends exactly when a kernel of its stream starts
     p_fifo_overlap: float = 0.0                 # a kernel starts 1-2 units before the previous kernel of its stream ends (tolerated -1 edges)
+    stream_zero: bool = False                   # the device stream id 0 may occur (HTA: every stream other than -1 is a device stream)
     unique_pad_names: bool = False              # the padding operators carry names of their own, different per rank (a vocabulary beyond 127 symbols)
     shared_names: bool = False                  # a host operator and a device kernel may carry the same name (torch.compile: op and Triton kernel)
     more_inner_annotations: bool = False        # user annotations with operator children inside operators (events without graph nodes inside the nest)
@@ -225,7 +226,8 @@ class Gen:
         dev: List[dict] = []
         gpu_pid = rng.choice([0, 1])
         n_streams = rng.randint(*p.n_streams)
-        streams = rng.sample([7, 13, 20, 24, 3], n_streams)
+        streams = rng.sample([7, 13, 20, 24, 3] + ([0, 0] if p.stream_zero else []), n_streams)
+        streams = list(dict.fromkeys(streams)) or [7]
         free_at = {s: 0 for s in streams}
         knames = list(p.kernel_names) if p.kernel_names else None
         launches = sorted([e for e in host if e.get("_launch")], key=lambda e: (e["ts"], e["dur"]))
@@ -659,7 +661,9 @@ _reg(Profile(name="comm_overlap", device="free", n_free_kernels=(2, 12), tmax_ch
                            "sm80_xmma_gemm", "ncclKernel_x")))
 _reg(Profile(name="loader_pad", n_steps=(0, 3), n_ranks=(1, 2), n_pad=(125, 150), p_launch=0.5, p_sync=0.3))
 _reg(Profile(name="loader_mix", n_steps=(0, 3), n_ranks=(1, 3), p_nonevents=0.9, p_string_pid_span=0.6, p_missing_kernel=0.2, p_orphan_kernel=0.3,
-             p_sync=0.5, allow_host_stream_arg=True))
+             p_sync=0.5, allow_host_stream_arg=True, stream_zero=True))
+_reg(Profile(name="free_overlap_s0", device="free", n_free_kernels=(2, 14), tmax_choices=(4, 6, 10, 20, 60), kernel_causal=False,
+             p_launch=0.3, n_ranks=(1, 3), p_kernel_zero=0.12, n_streams=(2, 3), allow_host_stream_arg=True, stream_zero=True))
 _reg(Profile(name="steps_mix", n_steps=(0, 5), n_ranks=(1, 3), tmax_choices=(12, 24, 40, 110, 600), p_missing_kernel=0.15, p_orphan_kernel=0.2,
              p_sync=0.4, p_launch=0.5))
 _reg(Profile(name="steps_tiny", n_steps=(2, 4), n_ranks=(1, 2), tmax_choices=(8, 10, 14), p_launch=0.5, p_same_ts_as_launch=0.3))
